@@ -47,6 +47,7 @@ ROWS = [
     P("ArrU32x0", "[u32;0]", 4, 3, borrows=True, quick=True, note="empty zero-copy array"), P("ArrU32x1", "[u32;1]", 4, 6, borrows=True),
     P("ArrU32x3", "[u32;3]", 4, 14, borrows=True, quick=True), P("ArrUnitx2", "[();2]", 1, 4, borrows=True, quick=True),
     P("ArrZeroSx2", "[ZeroS;2]", 4, 4, borrows=True), P("ArrArrU8", "[[u8;2];2]", 1, 6, borrows=True),
+    P("ArrVecx2", "[Vec<u16>;2]", 2, 5, borrows=True, quick=True, shapes=3, qshapes=[1], note="deep array of heap-owning items"),
     P("ArrStringx0", "[String;0]", 1, 3), P("ArrStringx2", "[String;2]", 1, 6, borrows=True, shapes=4, qshapes=[2]),
     # tuples
     P("Tup1", "(u32,)", 4, 3, borrows=True), P("Tup2", "(u16,u16)", 2, 3, borrows=True, quick=True),
